@@ -28,7 +28,7 @@ claim("C03", "Theorems C03_or / C03_and / C03_anyOrder (some permutation q ~ l, 
       "C03_no_merge, C03_perms; C03_verdict (engine search = executable specification foundSpec on the fragment) and C03_pipeline (whole operation runOp on the YAML text of any rule of the fragment = foundSpec)." + COMMON, "DESIGN.md 0.2, 7 C03", "$deref fields containing $or: correspondence only.")
 claim("C04", "Theorems C04_verdict / C04_pipeline (whole operation: [$not X, Y] is found iff an instruction at which X fails is immediately followed by Y); C04_instruction, C04_operand (exactly one instruction/operand, iff the argument fails there), C04_seq." + COMMON,
       "DESIGN.md 0.2, 7 C04", "Capture-free literal fragment; the repairs D2+D3 are part of the tree.")
-claim("C05", "Theorem C05_front_end (YAML front end: build + handler chains give definition at the first occurrence of a capture name in document order, reference afterwards); C05_spine: environment-threaded master theorem for the capture spine (engine groups by registration index mirror "
+claim("C05", "Theorem C05_front_end (YAML front end: build + handler chains give definition at the first occurrence of a capture name in document order, reference afterwards), C05_compile / C05_pipeline (compileTree on the YAML of a capture-spine rule = comp of the typed rule, renumbering is the identity; run on the stream = the denotation); C05_spine: environment-threaded master theorem for the capture spine (engine groups by registration index mirror "
       "bindings by name; first occurrence binds the whole instruction body / whole non-empty operand, later occurrences match only "
       "identical text, names independent), C05_invariant, clause theorems, C05_twice; counter-example theorems for the register "
       "families." + COMMON, "DESIGN.md 0.2, 7 C05",
